@@ -33,7 +33,7 @@ STUBBED = ["none inside the calls; sequenceParameters.print / backendtools chatt
 ASSUMPTIONS = ["positions are Python ints (single, list or tuple); other types are outside the statement and not generated",
                "derived values are compared with the real code on a fresh object built from the substituted string (tolerance 1e-12)",
                "calls are atomic; interleaving = which live object's call runs next"]
-PROBES = ["related_objects", "pos_zero", "pos_negative", "pos_N_plus_1", "pos_huge", "dup_in_call", "dup_across_calls", "non_sty_in_range",
+PROBES = ["object_created_mid_history", "related_objects", "pos_zero", "pos_negative", "pos_N_plus_1", "pos_huge", "dup_in_call", "dup_across_calls", "non_sty_in_range",
           "set_after_clear", "dist_k_ge_3", "kappa_after_with_sites", "tuple_arg", "int_arg", "hostile_with_sites_held",
           "second_object_checked"]
 STY = "STY"
@@ -68,6 +68,19 @@ def gen_plan(streams, tier):
         s = objs[o]
         N = len(s)
         x = rnd.random()
+        if x < 0.04 and len(objs) < 5:
+            base = objs[o]
+            kind = rnd.choice(("same", "perm", "double"))
+            if kind == "perm":
+                l = list(base); rnd.shuffle(l); ns = "".join(l)
+            elif kind == "double" and len(base) <= 20:
+                ns = base * 2
+            else:
+                ns = base
+            ops.append({"k": "new", "seq": ns})
+            objs.append(ns)
+            nobj += 1
+            continue
         if x < 0.45:
             def pos():
                 if rnd.random() < hostile_w:
@@ -89,7 +102,8 @@ def gen_plan(streams, tier):
             ops.append({"k": "clear", "o": o})
         else:
             ops.append({"k": "obs", "o": o, "w": rnd.choice(("sites", "pseq", "pseq", "kappa", "kappa", "dist", "all", "seq"))})
-    return {"property": ID, "run_seed": streams.run_seed, "objects": objs, "ops": ops}
+    nnew = sum(1 for op in ops if op["k"] == "new")
+    return {"property": ID, "run_seed": streams.run_seed, "objects": objs[:len(objs) - nnew], "ops": ops}
 
 
 def corpus():
@@ -212,6 +226,15 @@ def execute(plan, ctx):
         ctx.count("observations")
 
     for n, op in enumerate(plan["ops"]):
+        if op["k"] == "new":
+            seqs.append(op["seq"])
+            objs.append(SequenceParameters(op["seq"]))
+            model.append([])
+            cleared.append(False)
+            ctx.probe("object_created_mid_history")
+            ctx.log.emit("new", seq=op["seq"])
+            check_basic(len(objs) - 1, "new object")
+            continue
         i = op["o"] % len(objs)
         s = seqs[i]
         N = len(s)
